@@ -164,7 +164,7 @@ func oracleInstants(c *Case) CaseResult {
 func selfTags(c *Case, results ...Canon) []string {
 	var tags []string
 	for _, r := range results {
-		if r.Kind != "error" && hasDuplicateSeries(r) {
+		if r.Kind != "error" && hasDuplicateSeries(r) && !rootRegroups(c.Query) {
 			tags = append(tags, "duplicate-series")
 			break
 		}
@@ -425,7 +425,7 @@ func oracleWF(c *Case) CaseResult {
 	if d := validateResult(got, c.Window, typ); d != "" {
 		res.Fail = d
 		res.Impl = trunc(got.String(), 500)
-		if strings.HasPrefix(d, "duplicate label set") && !strings.HasPrefix(c.Query, "histogram_quantile(") {
+		if strings.HasPrefix(d, "duplicate label set") && !strings.HasPrefix(c.Query, "histogram_quantile(") && !rootRegroups(c.Query) {
 			res.Tags = append(res.Tags, "duplicate-series")
 			if binopSignatureCollision(c) {
 				res.Tags = append(res.Tags, "binop-signature-collision")
